@@ -158,13 +158,19 @@ def run(ctx, out):
                     alias_world(d)
                     before = src_snapshot(d, [])
                     errno = [5, 13, 24][i % 3]
-                    rf = xcp.run_supervised(sup, argv, d, d, rules=[("fail", errno, 0, sysn, nth, path)], tag="af", timeout_ms=20000)
+                    rf = xcp.run_supervised(sup, argv, d, d, rules=[("fail", errno, 0, sysn, nth, "=" + path)], tag="af", timeout_ms=20000)
                     after = src_snapshot(d, [])
                     out.case(("alias-fault", label, driver, sysn, path[len(d):], nth), True)
                     out.count("alias_fault_points")
                     why = cmp_snap(before, after)
-                    if label == "among-valid" and why and "appeared" in why:
-                        why = None
+                    if why and "appeared" in why:
+                        # a NEW entry below the destination argument is not a change to a source or bystander
+                        # (a failed is_dir() probe of the destination changes the mapping: C04's finding F-04b)
+                        destarg = os.path.normpath(os.path.join(d, tail[-1]))
+                        new = [p for p in after if p not in before]
+                        if all(os.path.normpath(os.path.join(d, os.fsdecode(p))).startswith(destarg) for p in new):
+                            b2 = {p: e for p, e in after.items() if p in before}
+                            why = cmp_snap(before, b2)
                     if why:
                         out.violation("self-copy (%s) with errno %d injected at %s #%d on %s: %s"
                                       % (label, errno, sysn, nth, path[len(d):], why),
@@ -234,7 +240,7 @@ def run(ctx, out):
                 for act in ("kill", "killafter"):
                     setup()
                     before = src_snapshot(d, excl)
-                    r = xcp.run_supervised(sup, argv, d, d, rules=[(act, 0, 0, sysn, nth, path)], tag="k")
+                    r = xcp.run_supervised(sup, argv, d, d, rules=[(act, 0, 0, sysn, nth, "=" + path)], tag="k")
                     after = src_snapshot(d, excl)
                     out.case(("kill", kind, driver, sysn, path[len(d):], nth, act), True)
                     out.count("kill_points")
@@ -255,7 +261,7 @@ def run(ctx, out):
                 errno = [5, 28, 13, 24, 30, 1][i % 6]
                 setup()
                 before = src_snapshot(d, excl)
-                r = xcp.run_supervised(sup, argv, d, d, rules=[("fail", errno, 0, sysn, nth, path)], tag="f", timeout_ms=20000)
+                r = xcp.run_supervised(sup, argv, d, d, rules=[("fail", errno, 0, sysn, nth, "=" + path)], tag="f", timeout_ms=20000)
                 after = src_snapshot(d, excl)
                 out.case(("fault", kind, driver, sysn, path[len(d):], nth, errno), True)
                 out.count("fault_points")
